@@ -1,8 +1,13 @@
 (* C02 — Frame round-trip under every option combination, chunking and entry point. *)
-From LZ4V Require Import Base GenBlock GenStream GenLz4 XXH32 BlockFormat FrameSpec FrameImpl Writer Reader FrameTheoremsSpec WriterProofs FrameEncodeProofs FrameEncodeItems.
-(* Writer side, every option list the Writer accepts, every split into Write calls with Flush calls
-   anywhere: every call succeeds, the Writer ends closed, and the emitted bytes are a frame of the
-   specification whose content is exactly the input *)
+From LZ4V Require Import Base GenBlock GenStream GenLz4 XXH32 BlockFormat FrameSpec FrameImpl Writer Reader FrameTheoremsSpec
+  WriterProofs FrameEncodeProofs FrameEncodeItems ReaderProofs Lifecycle ReaderSpec2 ReaderProofs2.
+(* every option list the Writer accepts (modern frames), every split of the input into Write calls
+   with Flush calls anywhere: what the Writer has emitted once Close returns is decoded by the Reader,
+   through WriteTo and through Read with ANY positive buffer size, to exactly the input followed by
+   a clean end of stream (Reader in the closed state, the whole frame consumed) *)
+Theorem C02_roundtrip : roundtrip_stmt.        Proof. exact roundtrip. Qed.
+Print Assumptions C02_roundtrip.
+(* Writer side alone: every call succeeds and the sink is a frame of the strict specification *)
 Theorem C02_writer : forall os o items, opts_after os = Some o -> modern o ->
   Forall (fun i => match i with IWrite d => bytes d | IFlush => True end) items ->
   (fo_csize o <= 0 \/ fo_csize o = len (data_of items)) -> len (data_of items) < 2 ^ 64 ->
@@ -12,5 +17,8 @@ Theorem C02_writer : forall os o items, opts_after os = Some o -> modern o ->
 Proof. exact sessions_meet_spec. Qed.
 Print Assumptions C02_writer.
 (* a single ReadFrom emits the same frame as any split into Writes *)
-Theorem C02_readfrom : writer_readfrom_stmt.  Proof. exact writer_readfrom. Qed.
+Theorem C02_readfrom : writer_readfrom_stmt.   Proof. exact writer_readfrom. Qed.
 Print Assumptions C02_readfrom.
+(* Read with any positive buffer size delivers exactly what WriteTo delivers, on every input *)
+Theorem C02_read_eq_writeto : reader_read_eq_writeto_stmt.  Proof. exact reader_read_eq_writeto. Qed.
+Print Assumptions C02_read_eq_writeto.
